@@ -129,6 +129,19 @@ fn is_constant(expr: &Expr) -> bool {
     }
 }
 
+/// Can the expression stand on the left of `=`?
+pub(crate) fn is_assignable(expr: &Expr) -> bool {
+    match expr {
+        Expr::Ident(..) | Expr::Member(..) | Expr::SuperProp(..) => true,
+        Expr::Paren(ParenExpr { expr, .. })
+        | Expr::TsAs(TsAsExpr { expr, .. })
+        | Expr::TsNonNull(TsNonNullExpr { expr, .. })
+        | Expr::TsTypeAssertion(TsTypeAssertion { expr, .. })
+        | Expr::TsSatisfies(TsSatisfiesExpr { expr, .. }) => is_assignable(expr),
+        _ => false,
+    }
+}
+
 pub(crate) fn is_on(attr_name: &str) -> bool {
     match attr_name.as_bytes() {
         [b'o', b'n', c, ..] => !c.is_ascii_lowercase(),
